@@ -100,38 +100,62 @@ def static_scan(files):
     return bad
 
 
-def coq_files():
+def coq_files(dirs=None):
     fs = []
     for d, _, names in os.walk(COQ):
         for n in names:
             if n.endswith(".v"):
-                fs.append(os.path.relpath(os.path.join(d, n), COQ))
+                rel = os.path.relpath(os.path.join(d, n), COQ)
+                if dirs is None or rel.split(os.sep)[0] in dirs:
+                    fs.append(rel)
     return sorted(fs)
 
 
-def ensure_makefile():
-    """(Re)generate _CoqProject's file list and the coq_makefile Makefile when the set of .v files changed."""
-    proj = os.path.join(COQ, "_CoqProject")
+def prop_dirs(d):
+    """Coq directories a property's build depends on: Lib, its own, and props/<id>.json coq_deps (transitively)."""
+    seen, todo = {"Lib"}, [d]
+    while todo:
+        x = todo.pop()
+        if x in seen:
+            continue
+        seen.add(x)
+        for pj in glob.glob(os.path.join(ROOT, "props", "*.json")):
+            try:
+                c = json.load(open(pj))
+            except ValueError:
+                continue
+            if c.get("coq_dir", c.get("id")) == x:
+                todo += c.get("coq_deps", [])
+    return sorted(seen)
+
+
+def ensure_makefile(dirs=None):
+    """(Re)generate the coq_makefile project for the given directories (all when None) when its file set changed.
+    One project per property keeps a half-written file of another property from breaking this one's build."""
+    tag = "" if dirs is None else "." + "_".join(d for d in dirs if d != "Lib")
+    proj = os.path.join(COQ, "_CoqProject" + tag)
     head = ["-R . Verif",
             "-arg -w -arg -notation-overridden,-deprecated-hint-without-locality,-deprecated-instance-without-locality,-deprecated-hint-rewrite-without-locality"]
-    want = "\n".join(head + coq_files()) + "\n"
+    want = "\n".join(head + coq_files(dirs)) + "\n"
     have = open(proj).read() if os.path.exists(proj) else ""
-    mk = os.path.join(COQ, "Makefile")
+    mkname = "Makefile" + tag
+    mk = os.path.join(COQ, mkname)
     if want != have or not os.path.exists(mk) or not os.path.exists(mk + ".conf"):
         with open(proj, "w") as f:
             f.write(want)
-        rc, out = run(["coq_makefile", "-f", "_CoqProject", "-o", "Makefile"], cwd=COQ, timeout=120)
+        rc, out = run(["coq_makefile", "-f", "_CoqProject" + tag, "-o", mkname], cwd=COQ, timeout=120)
         if rc != 0:
             raise RuntimeError("coq_makefile failed:\n" + out)
+    return mkname
 
 
-def coq_make(targets, timeout=3000):
+def coq_make(targets, timeout=3000, dirs=None):
     """Full .vo build of the given targets (never -vos), serialised across concurrent checks."""
     os.makedirs(os.path.join(ROOT, "work"), exist_ok=True)
     with open(os.path.join(ROOT, "work", ".coq.lock"), "w") as lk:
         fcntl.flock(lk, fcntl.LOCK_EX)
-        ensure_makefile()
-        return run(["make", "-j16"] + targets, cwd=COQ, timeout=timeout)
+        mk = ensure_makefile(dirs)
+        return run(["make", "-f", mk, "-j16"] + targets, cwd=COQ, timeout=timeout)
 
 
 def parse_assumptions(out):
@@ -165,7 +189,7 @@ def proof_gate(prop, cfg, work):
     d = cfg.get("coq_dir", prop)
     res = dict(ok=False, obligations=0, discharged=0, theorems=[], axioms=[], problems=[], log="")
     targets = ["%s/Properties.vo" % d, "%s/Corr.vo" % d]
-    rc, out = coq_make(targets)
+    rc, out = coq_make(targets, dirs=prop_dirs(d))
     res["log"] = out[-6000:]
     if rc == -9:
         raise RuntimeError("coq build timed out")
